@@ -116,6 +116,8 @@ class Ctx:
         e = dict(os.environ)
         if env:
             e.update(env)
+        # TLC leaves an empty tlc-<n> directory in java.io.tmpdir per run: keep it inside the run's own scratch directory
+        e["JAVA_TOOL_OPTIONS"] = (e.get("JAVA_TOOL_OPTIONS", "") + " -Djava.io.tmpdir=" + d).strip()
         t0 = time.time()
         for attempt in range(3):
             # no checkpoints: a run of more than half an hour would write one, and TLC cannot checkpoint a behaviour of more
